@@ -945,6 +945,16 @@ class Scenario:
                 prev_gap = None
                 immediate_streak = 0
                 continue
+            if a["outcome"] in auth_stop and nxt is not None:
+                # an authentication failure may end the retries; if the library does try again on its own it is still a
+                # retry after a failed attempt and must not come without delay (a caller or an update may start one at once)
+                gap_a = nxt["t0"] - a["t1"]
+                ctx.obligations += 1
+                started_by_caller = any(a["t1"] - TOL <= c["t0"] <= nxt["t0"] + TOL for c in self.calls)
+                if (gap_a < 0.5 - TOL and not started_by_caller and not triggered(a["t0"], nxt["t0"])
+                        and not self._closed_between(a["t1"], nxt["t0"])):
+                    ctx.violate("C10.backoff", "retry-without-delay-after-authentication-error",
+                                f"attempt #{i + 1} ended with {a['outcome']} at t={a['t1']:.3f}; the next attempt started {gap_a:.3f}s later with no caller, update or close in between")
             if a["outcome"] == "cancelled" or a["outcome"] in auth_stop:
                 prev_gap = None
                 immediate_streak = 0
